@@ -247,7 +247,9 @@ func c02One(drv *core.Driver, body []jr.Dir, cfg ref.BalCfg) (string, string, *c
 	args := append([]string{"balance", "--color=false", "--digits", "8"}, cfg.Args()...)
 	args = append(args, "j.knut")
 	out := drv.Run(nil, args...)
-	ctx := func() string { return fmt.Sprintf("\ncommand: knut %s\njournal body:\n%s", strings.Join(args, " "), jr.RenderAll(body)) }
+	ctx := func() string {
+		return fmt.Sprintf("\ncommand: knut %s\njournal body:\n%s", strings.Join(args, " "), jr.RenderAll(body))
+	}
 	if ab := out.Abnormal(); ab != "" {
 		return "C02:abnormal", ab + ctx(), out
 	}
@@ -296,7 +298,9 @@ func windowCfgs(dates []string, full bool) []ref.BalCfg {
 }
 
 func mappingCfgs() []ref.BalCfg {
-	rule := func(l, s int, rx string) ref.MapRule { return ref.MapRule{Level: l, Suffix: s, Regex: rx, HasRegex: rx != ""} }
+	rule := func(l, s int, rx string) ref.MapRule {
+		return ref.MapRule{Level: l, Suffix: s, Regex: rx, HasRegex: rx != ""}
+	}
 	maps := [][]ref.MapRule{
 		nil,
 		{rule(0, 0, "Expenses")},
@@ -389,6 +393,18 @@ func c02Run(e *core.Env) {
 		}
 	})
 	e.SetBound("journal_depth", maxN)
+	if e.Take() {
+		// the same cells when the directives are spread over three files, under every loader schedule
+		root, a, b := multiFileJournal()
+		body := append(append(append([]jr.Dir(nil), root[len(opensPrefix()):]...), a...), b...)
+		for _, cfg := range []ref.BalCfg{{}, {Interval: ref.Monthly, Diff: true}} {
+			if key, detail, _ := c02One(drv, body, cfg); key != "" {
+				e.Violation(key, detail, balCase{body, cfg}, nil)
+				continue
+			}
+			multiFileSchedules(e, drv, "C02", "balance"+strings.Join(cfg.Args(), ""), root, a, b, append(append([]string{"balance", "--color=false", "--digits", "8"}, cfg.Args()...), "root.knut"))
+		}
+	}
 }
 
 // sameTableUpToRowOrder compares two renderings line-multiset-wise: the real binary
@@ -402,6 +418,9 @@ func sameTableUpToRowOrder(a, b string) bool {
 }
 
 func c02Replay(e *core.Env, data json.RawMessage) (bool, string) {
+	if h, v, d := replayMultiFile(e, data); h {
+		return v, d
+	}
 	var cs balCase
 	if err := json.Unmarshal(data, &cs); err != nil {
 		return false, err.Error()
